@@ -611,6 +611,36 @@ func c13ClientStreams(reg *gen.Registry, quick bool) []c13Stream {
 		}
 		note(fmt.Sprintf("%d intermediate chunks of %d bytes sent, none completed", n, len(part)))
 	})
+	add("overruns-of-one-request-id-then-a-flood-to-the-client", func(conn net.Conn, r *rand.Rand, note func(string)) {
+		// a client keeps receiving after a message was refused: 400 times one chunk more than allowed under one
+		// request id, then intermediate chunks under ever new ids; the bound on buffered chunks must still hold
+		ch := opened(conn)
+		if ch == nil {
+			return
+		}
+		part := make([]byte, int(ch.PeerRecvBuf)-100)
+		conn.SetWriteDeadline(time.Now().Add(40 * time.Second))
+		sent := 0
+		for round := 0; round < 400; round++ {
+			for k := 0; k < 17; k++ {
+				raw, _ := ch.SealChunk(nil, "MSG", 'C', ch.TakeSeq(), 77, part)
+				if _, err := conn.Write(raw); err != nil {
+					note(fmt.Sprintf("write failed after %d chunks: %v", sent, err))
+					return
+				}
+				sent++
+			}
+		}
+		for k := 0; k < 3000; k++ {
+			raw, _ := ch.SealChunk(nil, "MSG", 'C', ch.TakeSeq(), uint32(5000+k), part)
+			if _, err := conn.Write(raw); err != nil {
+				note(fmt.Sprintf("write failed after %d chunks: %v", sent, err))
+				return
+			}
+			sent++
+		}
+		note(fmt.Sprintf("%d intermediate chunks of %d bytes sent, none completed", sent, len(part)))
+	})
 	for _, L := range []int{8, 12, 16, 20, 24} {
 		L := L
 		add(fmt.Sprintf("msg-chunk-of-%d-bytes-to-the-client", L), func(conn net.Conn, r *rand.Rand, note func(string)) {
@@ -819,7 +849,7 @@ func init() {
 	fw.Register("C13", fw.Spec{
 		Plan: func(tier string) fw.Plan {
 			p := fw.Plan{Batches: 8, TimeoutS: 900, MinNontrivial: 80, Level: "exploration",
-				Rule:        "hostile byte streams from a raw socket / the independent peer to a bare gopcua channel living in a child process (server-kind: accepted connections; client-kind: dialled connections whose dispatcher receives), negotiated limits 8192 bytes x 16 chunks x 64 kB: malformed and extreme HEL/ACK (sizes 0..2^32-1, buffers 0,1,7,8,2^32-1), wrong first frames, OPN junk (random, huge/negative lengths, unknown policy, garbage and ECDSA certificates, missing sequence header), chunks with wrong channel/token ids, 8-24 byte chunks, garbage bodies under every chunk type, floods of intermediate chunks over thousands of request ids and over one id, every registered response type sent to a server and every request type (incl. OpenSecureChannelRequest) sent to a client; oracle: the child does not die, Receive returns after the peer closed (8000 heartbeats), bytes buffered for incomplete messages (verif accessor) <= 8 x MaxChunkCount x ReceiveBufSize, no single Receive allocates more than 512 MiB; thorough repeats the streams with 40 seeds; distinct = streams",
+				Rule:        "hostile byte streams from a raw socket / the independent peer to a bare gopcua channel living in a child process (server-kind: accepted connections; client-kind: dialled connections whose dispatcher receives), negotiated limits 8192 bytes x 16 chunks x 64 kB: malformed and extreme HEL/ACK (sizes 0..2^32-1, buffers 0,1,7,8,2^32-1), wrong first frames, OPN junk (random, huge/negative lengths, unknown policy, garbage and ECDSA certificates, missing sequence header), chunks with wrong channel/token ids, 8-24 byte chunks, garbage bodies under every chunk type, floods of intermediate chunks over thousands of request ids and over one id, 400 overruns of one request id followed by such a flood, every registered response type sent to a server and every request type (incl. OpenSecureChannelRequest) sent to a client; oracle: the child does not die, Receive returns after the peer closed (8000 heartbeats), bytes buffered for incomplete messages (verif accessor) <= 8 x MaxChunkCount x ReceiveBufSize, no single Receive allocates more than 512 MiB; thorough repeats the streams with 40 seeds; distinct = streams",
 				Assumptions: []string{"policy None for the post-open streams (hostile chunks under Sign/SignAndEncrypt are C09's subject)"}}
 			if tier == "thorough" {
 				p.Batches, p.TimeoutS, p.MinNontrivial = 16, 3400, 80
